@@ -210,7 +210,13 @@ def to_blackbird(prog: Program, version: str = "1.0") -> blackbird.BlackbirdProg
                     op["kwargs"]["dark_counts"] = cmd.op.dark_counts
 
         else:
-            for a in cmd.op.p:
+            params = list(cmd.op.p)
+            if getattr(cmd.op, "dagger", False):
+                # Blackbird has no syntax for the inverse of a gate; the inverse of a
+                # gate is the same gate with the first parameter negated
+                params[0] = -params[0]
+
+            for a in params:
                 if sfpar.par_is_symbolic(a):
                     # SymPy object, convert to string
                     if any(map(isMeasuredParameter, a.free_symbols)):
